@@ -53,11 +53,12 @@ def liveAnn (srcs : List Source) : List Op → List (Addr × Nat × Nat) → Lis
 
 /-- Class of the history reported with a failure (it is part of the finding's signature): did some
     soft-reset re-walk of the RIB run while changes emitted before it were still queued behind it
-    in the session's channel (`overtaken`, an observed fact about the schedule)?  Does the history
-    start an LLGR stale period (an event outside the property's quantifier, kept as an extra)? -/
+    in the session's channel (`overtaken`, an observed fact about the schedule)?  Otherwise: does
+    the history start an LLGR stale period (every route of the source changes without an
+    announcement)? -/
 def scheduleClass (c : Case01) (o : Obs01) : String :=
-  if (c.pre ++ c.ops).any (fun op => match op with | .llgr _ => true | _ => false) then " class=llgr-restale"
-  else if o.overtaken > 0 then " class=refresh-overtook-queued-changes"
+  if o.overtaken > 0 then " class=refresh-overtook-queued-changes"
+  else if (c.pre ++ c.ops).any (fun op => match op with | .llgr _ => true | _ => false) then " class=llgr-restale"
   else " class=in-order"
 
 def check (c : Case01) (o : Obs01) : Verdict :=
